@@ -240,6 +240,7 @@ for compatibility with external tools, e.g. openssl, if needed.""",
         nargs="?",
         default="hex",
         const="raw",
+        action=ExplicitOption,
         type=format_option,
         help="raw binary (-0), binary string (-0b), hexadecimal string (-0x), or PEM-encoded private key (-0pem)",
     )
@@ -268,6 +269,7 @@ for compatibility with external tools, e.g. openssl, if needed.""",
         nargs="?",
         default="hex",
         const="raw",
+        action=ExplicitOption,
         type=format_option,
         help="raw binary (-0), binary string (-0b), hexadecimal string (-0x), or PEM-encoded public key (-0pem)",
     )
